@@ -412,6 +412,8 @@ type opPlan struct {
 	revealOf     *workload.Key
 	corruptSig   bool
 	tamper       string
+	// hdrOrder: the signer wrote its protected header with "kid" before "alg" (and signed exactly that)
+	hdrOrder bool
 	signedSuffix string
 }
 
@@ -457,7 +459,7 @@ func (w *aWorld) build(p *opPlan) ([]byte, *refmodel.Op) {
 	}
 
 	plain := p.delta == refmodel.DeltaOK && p.signWith == nil && p.revealOf == nil && !p.corruptSig && p.tamper == "" &&
-		p.nextUpdC == "" && p.nextRecC == "" && p.signedSuffix == ""
+		p.nextUpdC == "" && p.nextRecC == "" && p.signedSuffix == "" && !p.hdrOrder
 
 	var (
 		req []byte
@@ -548,6 +550,18 @@ func (w *aWorld) build(p *opPlan) ([]byte, *refmodel.Op) {
 				})
 			case "header":
 				sd = workload.TamperHeader(sd, map[string]interface{}{"alg": p.key.Type.Alg(), "kid": "x"})
+			case "header-respaced":
+				sd = workload.RespaceHeader(sd)
+			}
+
+			req = workload.ReplaceSignedData(req, sd)
+		}
+
+		// (only for an operation that is otherwise signed properly: a forged or damaged twin keeps its flaw)
+		if p.hdrOrder && p.signWith == nil && !p.corruptSig && p.tamper == "" {
+			sd, err := workload.ResignWithHeader(p.key, workload.SignedDataOf(req), []byte(`{"kid":"signing-key","alg":"`+p.key.Type.Alg()+`"}`))
+			if err != nil {
+				panic(err)
 			}
 
 			req = workload.ReplaceSignedData(req, sd)
@@ -1036,6 +1050,12 @@ func (w *aWorld) anchorHonest(st *refmodel.State, party string) {
 		}
 	}
 
+	// a signer other than the library's own may write its protected header members in another order and sign exactly that
+	if T.Draw(10, "honest.header-order") == 0 {
+		p.hdrOrder = true
+		w.k.Count("probe:honest-operation-with-kid-before-alg")
+	}
+
 	// now and then a spoiled twin of the operation reaches the ledger first, carrying the SAME next commitments: a forged
 	// copy (somebody re-signed or damaged the pending request) or, for an update, the controller's own botched first
 	// attempt (request delta not matching the signed hash) that is then repeated correctly with the keys already generated
@@ -1357,7 +1377,7 @@ func (w *aWorld) anchorUnauthorised(st *refmodel.State) {
 		p.nextRec = w.newKey("")
 	}
 
-	switch T.Draw(7, "unauth.class") {
+	switch T.Draw(8, "unauth.class") {
 	case 0: // another key revealed (the adversary's own), everything else proper
 		p.key = mallory
 		p.kind = "unauth-foreign-key"
@@ -1373,6 +1393,9 @@ func (w *aWorld) anchorUnauthorised(st *refmodel.State) {
 	case 4:
 		p.tamper = "header"
 		p.kind = "unauth-tampered-header"
+	case 7: // a signed operation whose protected header was re-serialised (same members, other octets) on its way
+		p.tamper = "header-respaced"
+		p.kind = "unauth-respaced-header"
 	case 5: // reveal value of the committed key, but the signed data names (and is signed by) the adversary's key
 		p.key = mallory
 		p.revealOf = target
@@ -2297,6 +2320,34 @@ func (w *aWorld) oracleTimeTravel() {
 		w.fail("C06", "version-id/unknown", "resolving at an unknown version id succeeded")
 	}
 
+	// query strings as a client that does not escape writes them: ';' is a legal query character, '%' may be stray. Whatever
+	// the REST layer makes of them, a request that names a version must never be answered from the current state.
+	if len(pub) > 0 && w.k.T.Draw(3, "tt.rawquery") == 0 {
+		raws := []string{
+			"versionId=no-such;version",
+			"versionId=" + pub[len(pub)-1].A.CanonicalReference + ";x",
+			"versionTime=1969-12-31T23:59:59Z;x",
+			"versionId=no-such-version%zz",
+			"versionTime=1969-12-31T23:59:59Z%",
+		}
+		raw := raws[w.k.T.Draw(len(raws), "tt.rawquery.which")]
+		ro, code := w.viaRESTRaw(raw)
+		w.k.Count("probe:version-parameter-in-unescaped-query")
+
+		if code == http.StatusOK {
+			var o document.ResolutionOptions
+			for _, f := range ro {
+				f(&o)
+			}
+
+			if o.VersionID == "" && o.VersionTime == "" {
+				w.fail("C06", "rest/version-parameter-dropped", fmt.Sprintf("the REST resolve handler answered the query %q, which names a version, by resolving the current state (no version option was passed on)", raw))
+			} else if _, e := w.resolve(w.proc, ro...); e == nil {
+				w.fail("C06", "version-id/unknown", fmt.Sprintf("the query %q, which names no version of this DID's history, was resolved (options %+v)", raw, o))
+			}
+		}
+	}
+
 	// a time long before the first operation - before the epoch - is an error like any other time before the first operation
 	if len(pub) > 0 {
 		for _, early := range []string{"1969-12-31T23:59:59Z", "1901-01-01T00:00:00Z", "0001-01-01T00:00:00Z"} {
@@ -2307,6 +2358,22 @@ func (w *aWorld) oracleTimeTravel() {
 			}
 		}
 	}
+}
+
+// viaRESTRaw sends a resolve request with the given query string, unescaped, through the real REST handler.
+func (w *aWorld) viaRESTRaw(rawQuery string) ([]document.ResolutionOption, int) {
+	w.viaREST("versionId", "x") // (sets the router up)
+
+	w.restCap.opts = nil
+
+	req := httptest.NewRequest(http.MethodGet, "/identifiers/did:sim:"+w.suffix, nil)
+	req.URL.RawQuery = rawQuery
+	req.RequestURI = req.URL.Path + "?" + rawQuery
+
+	rr := httptest.NewRecorder()
+	w.rest.ServeHTTP(rr, req)
+
+	return w.restCap.opts, rr.Code
 }
 
 // optCapture stands in for the document handler behind the REST resolve handler: it records the
